@@ -349,6 +349,55 @@ func runC20(c *Ctx) {
 			c.Check(ok, "R5", funcName(fn)+":update", call.Pos(), "primary = the shard whose id is the leader's", "the topology is updated with a primary that is not selected by id == LeaderId")
 		}
 	}
+	// discovery may ask any node, whatever the caller's read preference (with preference Primary and
+	// a dead leader nobody else would ever be asked)
+	{
+		disc := p.MustMethod("client", "HTTPClient", "discover")
+		calls := callsIn(disc, func(k *ssa.CallCommon) bool { return k.StaticCallee() == nre })
+		for _, call := range calls {
+			pref := p.TermOf(callCommon(call).Args[1])
+			anyC := p.Const("client", "Any")
+			okP := pref.Op == "const" && anyC != nil && pref.Name == anyC.Val().ExactString()
+			c.Check(okP, "R5", funcName(disc)+":asks-any-node", call.Pos(), "discovery selects its node with preference Any", "discovery selects the node to ask with preference "+pref.String()+" instead of Any: under the default preference (Primary) a client whose leader died never asks a secondary and never learns the new leader")
+		}
+		if len(calls) == 0 {
+			c.Fail("R5", funcName(disc)+":asks-any-node", disc.Pos(), "discovery does not select an endpoint through NextReadEndpoint")
+		}
+	}
+	// a primary (re)confirmed by a server answer is installed as a fresh, live endpoint on every path
+	{
+		isFreshPrimary := func(in ssa.Instruction) bool {
+			st, ok := in.(*ssa.Store)
+			if !ok {
+				return false
+			}
+			fa, ok := st.Addr.(*ssa.FieldAddr)
+			if !ok || structFieldName(deref(fa.X.Type()), fa.Field) != "primary" {
+				return false
+			}
+			v := p.TermOf(st.Val)
+			return v.Op == "call" && v.Fn != nil && v.Fn.Signature.Results().Len() == 1 && namedIs(v.Fn.Signature.Results().At(0).Type(), "client", "endpoint")
+		}
+		noPrimaryGiven := func(b *ssa.BasicBlock, succ int) bool {
+			ifi := blockIf(b)
+			if ifi == nil {
+				return false
+			}
+			cd := p.condOf(ifi.Cond, succ == 0)
+			a := cd.Atom
+			if a.Op != "EQ" || !cd.Pol {
+				return false
+			}
+			for i := 0; i < 2; i++ {
+				if a.Args[i].IsParam(upd, 1) && a.Args[1-i].Op == "const" && a.Args[1-i].Name == `""` {
+					return true
+				}
+			}
+			return false
+		}
+		esc := p.EscapesWithout(upd, isFreshPrimary, mustOpts{skipEdge: noPrimaryGiven})
+		c.Check(esc == nil, "R5", funcName(upd)+":fresh-primary", upd.Pos(), "Update(primary, …) installs a new endpoint for the primary", "topology.Update can finish without installing a new endpoint for the given primary: the old object keeps its dead flag, so a leader that answered one request with 5xx stays 'dead' for writes although discovery has just confirmed it")
+	}
 	if nU < 2 {
 		c.Fail("R5", "topology-updates", upd.Pos(), fmt.Sprintf("%d topology updates from server answers (discovery and redirect hook expected)", nU))
 	}
